@@ -340,7 +340,7 @@ var preambles = [][]string{
 func TestC19(t *testing.T) {
 	r := hx.Start(t, "C19")
 	defer r.Finish(t)
-	r.Rule("enumerated cross product {C introduced by Qual, Anon, both, preamble only} x 21 preamble lists (incl. empty blocks, trailing blanks, texts that start with a line break, a 70 KB line) (one-line, multi-line with/without trailing newline, raw // lines, raw /* */, mixtures, repeated blocks; one case in three also with the preamble supplied after a first render, one in four with a detached C snippet rendered as a fragment against the File first) x other imports {none, one, many, aliased, anonymous, dot, a path whose guess is c} x PackagePrefix on/off x hints {none, ImportName(C), ImportAlias(C), ImportAlias(C, .), ImportAlias(C, _), another path named C} x C referenced first/last; thorough adds rapid-generated preamble texts; non-trivial = a preamble together with >= 1 other import, or a prefix or a hint naming C; distinct by the case")
+	r.Rule("enumerated cross product {C introduced by Qual, Anon, both, preamble only} x 21 preamble lists (incl. empty blocks, trailing blanks, texts that start with a line break, a 70 KB line) (one-line, multi-line with/without trailing newline, raw // lines, raw /* */, mixtures, repeated blocks; one case in three also with the preamble supplied after a first render, one in four with a detached C snippet rendered as a fragment against the File first) x other imports {none, one, many, aliased, anonymous, dot, a path whose guess is c} x PackagePrefix on/off x hints {none, ImportName(C), ImportAlias(C), ImportAlias(C, .), ImportAlias(C, _), another path named C} x C referenced first/last; 1..70 preamble blocks; thorough adds rapid-generated preamble texts; non-trivial = a preamble together with >= 1 other import, or a prefix or a hint naming C; distinct by the case")
 	r.Assume("raw-form preamble texts are well-formed comments (one /*...*/, or // lines joined by single newlines, no trailing newline); preamble text is compared on the NoFormat twin, structure on the formatted output")
 	ck := hx.Check[Case]{Name: "cgo", Fn: check}
 	if !hx.Replay(r, ck) {
@@ -392,6 +392,22 @@ func TestC19(t *testing.T) {
 			}
 		}
 		r.Exhaustive("the stated cross product")
+		// every number of preamble blocks from 1 to 70 (a File may keep its parts in a structure that changes
+		// with their number), alone and next to other imports
+		if r.Shard == 0 {
+			for nb := 1; nb <= 70; nb++ {
+				var pre []string
+				for i := 0; i < nb; i++ {
+					pre = append(pre, fmt.Sprintf("#include <block%02d.h>", i))
+				}
+				for k, others := range []string{"none", "many"} {
+					c := Case{Intro: []string{"qual", "preamble", "anon"}[(nb+k)%3], Preamble: pre, Others: others, Hint: "none", CFirst: true, NoFormat: nb%5 == 0}
+					hx.One(r, ck, c)
+					r.NonTrivial(fmt.Sprintf("%+v", c))
+				}
+			}
+			r.Class("preamble_block_counts_1_to_70")
+		}
 	}
 	// random preamble texts
 	hx.Rapid(r, t, hx.Check[Case]{Name: "cgo_random_text", Fn: check}, r.N(300, 6000), func(rt *rapid.T) Case {
